@@ -27,7 +27,16 @@ Readiness of the wrapped service. `RateLimiter::poll_ready` forwards to the wrap
 saturated backend that answers `Pending` until `now + n`) a caller gets no call future at all — it is
 turned away before `call` (`result c notready`), takes no permit and never reaches the wrapped
 service; and (b) every call of the wrapped service goes to an instance that has reported ready
-(`wire`: the `ready=1` of the strict scripted service's `inner_call` line).
+(`wire`: the `ready=1` of the strict scripted service's `inner_call` line). A scripted `Pending` or
+`Err` answer of the wrapped service's `poll_ready` (`manual ready script=…`) turns the arriving caller
+away in the same manner (`Op.turnedAway`; an error is handed on as `RateLimiterServiceError::Inner`).
+
+Instants are unbounded naturals: the number of elapsed buckets of the sliding counter is the exact
+quotient `e / B` (the code's float division, cast to `u32`, saturates; only `≥ 2` is ever asked of it).
+
+Second half of the file: the preset constructors' documented configurations, and `Fleet` — several
+services built from one layer value, each with a limiter of its own — which is what the line-protocol
+`machine` runs (with one service it is the single-limiter model above).
 -/
 namespace TR.RateLimiter
 
@@ -174,6 +183,7 @@ inductive Op
   | drop (c : Nat)
   | adv (ms : Nat)
   | busy (ms : Nat)                    -- the wrapped service is not ready for the next `ms` ticks
+  | turnedAway (c : Nat) (err : Bool)  -- an arrival whose `poll_ready` answered `Pending` (scripted) / `Err(Inner(e))`
 deriving Repr
 
 def emit (s : State) (evs : List Ev) : State := { s with log := s.log ++ evs }
@@ -209,6 +219,10 @@ def rejectCall (s : State) (c : Nat) : State := emit (setPh s c (.done false)) [
 
 /-- `poll_ready` of the wrapped service is pending when the caller arrives: no call is made -/
 def notReadyCall (s : State) (c : Nat) : State := emit (setPh s c (.done false)) [.result c .notReady]
+
+/-- `poll_ready` of the wrapped service failed when the caller arrived: `RateLimiter::poll_ready` hands the error on
+as `RateLimiterServiceError::Inner` (the harness's scripted readiness error is kind 9, value 0) -/
+def readyErrEv (c : Nat) : Ev := .raw s!"ready_err {c} inner9:0"
 
 def badChoice (s : State) : State := emit s [.raw "choice-not-allowed"]
 
@@ -258,6 +272,10 @@ def stepS (cfg : Cfg) (s : State) (op : Op) : State :=
       else if s.now < s.busyUntil then notReadyCall s c
       else { setPh s c .fresh with script := (c, sc) :: s.script }
   | .busy ms => { s with busyUntil := s.now + ms }
+  | .turnedAway c err =>
+      -- `poll_ready` (forwarded to the wrapped service) did not answer `Ready(Ok)`: the caller makes no call
+      if (phaseOf s c).isSome then s
+      else notReadyCall (if err then emit s [readyErrEv c] else s) c
   | .poll c rej woke =>
       match phaseOf s c with
       | some .fresh => pollFresh cfg s c rej
@@ -269,6 +287,132 @@ def stepS (cfg : Cfg) (s : State) (op : Op) : State :=
 def initLim (cfg : Cfg) : Lim := { avail := cfg.limit }
 def init (cfg : Cfg) : State := { lim := initLim cfg }
 def run (cfg : Cfg) (ops : List Op) : State := ops.foldl (stepS cfg) (init cfg)
+
+/-! ## presets and construction paths — `layer.rs:85-133`, `config.rs:77-93`
+
+The documented configurations of the preset constructors, in milliseconds. `scale u` converts them to the
+tick of the case (`u` ticks per millisecond). A builder method called after a preset replaces that one field. -/
+
+/-- `RateLimiterLayer::per_second(n)`: n requests per 1 second period, 100 ms timeout, (default) fixed window -/
+def perSecond (n : Nat) : Cfg := { kind := .fixed, limit := n, period := 1000, timeout := 100 }
+/-- `RateLimiterLayer::per_minute(n)`: n requests per 60 second period, 1 second timeout -/
+def perMinute (n : Nat) : Cfg := { kind := .fixed, limit := n, period := 60000, timeout := 1000 }
+/-- `RateLimiterLayer::burst(rate, burst)`: `rate + burst` per second, 100 ms timeout, sliding counter -/
+def burst (rate b : Nat) : Cfg := { kind := .counter, limit := rate + b, period := 1000, timeout := 100 }
+/-- `RateLimiterConfigBuilder::new()` / `::default()`: 50 per second, 100 ms timeout, fixed window -/
+def builderDefaults : Cfg := { kind := .fixed, limit := 50, period := 1000, timeout := 100 }
+
+def scale (u : Nat) (c : Cfg) : Cfg := { c with period := c.period * u, timeout := c.timeout * u }
+
+/-! ## several services built from one layer value — `layer.rs:137-143`, `lib.rs:251-290`
+
+`Layer::layer` calls `RateLimiter::new`, which creates a **new** `SharedRateLimiter`: every service built from a
+layer value (or from a clone of it — a layer clone shares only the configuration) has its own window state, whose
+first window / bucket starts at the instant the service is built. Clones of one *service* share its limiter
+(`C02`: "through one rate limiter (all clones)"), whichever handle a caller uses and whenever the clone was taken.
+
+The model: a `Fleet` of independent instances of the single-limiter model above, one per service, each kept **in
+its own time** (tick 0 = the instant the service was built; nothing in the single-limiter model depends on
+absolute time, and the property statements only speak of differences of instants). What the services share is
+the wrapped service (clones of one scripted service): its busy stretch, its readiness script and the numbering of
+its calls (`inner_call c k`: k-th call in the case) — the fleet keeps those and renumbers the events of an
+instance (`renum`; a caller makes at most one inner call, so the number is looked up by caller). -/
+
+structure Fleet where
+  insts     : List (Nat × State)          -- service → its limiter and callers (in the service's own time)
+  owner     : List (Nat × Nat) := []      -- caller → service
+  kG        : List (Nat × Nat) := []      -- caller → number of its inner call in the case
+  serial    : Nat := 0
+  now       : Nat := 0
+  busyUntil : Nat := 0                    -- the wrapped service answers `Pending` before this instant
+  rscript   : List Char := []             -- scripted `poll_ready` answers still to come: 'p' pending, 'e' error, else ready
+deriving Repr
+
+inductive FOp
+  | arrive (k c : Nat) (sc : Step)        -- caller c calls (a handle of) service k; the service is built if need be
+  | poll (c : Nat) (rej woke : Bool)
+  | drop (c : Nat)
+  | adv (ms : Nat)
+  | busy (ms : Nat)
+  | ready (script : List Char)
+deriving Repr
+
+def setInst (l : List (Nat × State)) (k : Nat) (s : State) : List (Nat × State) :=
+  match l with
+  | [] => [(k, s)]
+  | (k', s') :: tl => if k' = k then (k', s) :: tl else (k', s') :: setInst tl k s
+
+def mapInsts (g : State → State) (l : List (Nat × State)) : List (Nat × State) := l.map fun p => (p.1, g p.2)
+
+/-- a service built now: a fresh limiter whose time starts here; the wrapped service it is given may be in the
+middle of a busy stretch -/
+def freshInst (cfg : Cfg) (f : Fleet) : State :=
+  if f.now < f.busyUntil then stepS cfg (init cfg) (.busy (f.busyUntil - f.now)) else init cfg
+
+def instOf (cfg : Cfg) (f : Fleet) (k : Nat) : State := (lookup f.insts k).getD (freshInst cfg f)
+
+def kOfG (f : Fleet) (c : Nat) : Nat := (lookup f.kG c).getD 0
+
+def renumRes (k : Nat) : Res → Res
+  | .ok _ => .ok k
+  | .inner kd _ => .inner kd k
+  | r => r
+
+/-- the events of one instance, with the calls of the wrapped service numbered through the whole case -/
+def renum (f : Fleet) : List Ev → Fleet × List Ev
+  | [] => (f, [])
+  | .innerCall c _ :: es =>
+      let r := renum { f with kG := (c, f.serial) :: f.kG, serial := f.serial + 1 } es
+      (r.1, .innerCall c f.serial :: r.2)
+  | .innerDone c _ o :: es => let r := renum f es; (r.1, .innerDone c (kOfG f c) o :: r.2)
+  | .innerDrop c _ :: es => let r := renum f es; (r.1, .innerDrop c (kOfG f c) :: r.2)
+  | .result c res :: es => let r := renum f es; (r.1, .result c (renumRes (kOfG f c) res) :: r.2)
+  | e :: es => let r := renum f es; (r.1, e :: r.2)
+
+/-- one step of service `k`'s instance; every other instance is left as it is -/
+def onInst (cfg : Cfg) (f : Fleet) (k : Nat) (op : Op) : Fleet × List Ev :=
+  let s := instOf cfg f k
+  let s' := stepS cfg s op
+  renum { f with insts := setInst f.insts k s' } (s'.log.drop s.log.length)
+
+def fstep (cfg : Cfg) (f : Fleet) : FOp → Fleet × List Ev
+  | .adv ms => ({ f with now := f.now + ms, insts := mapInsts (fun s => stepS cfg s (.adv ms)) f.insts }, [])
+  | .busy ms => ({ f with busyUntil := f.now + ms, insts := mapInsts (fun s => stepS cfg s (.busy ms)) f.insts }, [])
+  | .ready sc => ({ f with rscript := f.rscript ++ sc }, [])
+  | .arrive k c sc =>
+      if (lookup f.owner c).isSome then (f, [])
+      else
+        let f := { f with owner := (c, k) :: f.owner }
+        -- the scripted service looks at its busy stretch first; a scripted answer is only consumed when it is not busy
+        if f.now < f.busyUntil then onInst cfg f k (.arrive c sc)
+        else match f.rscript with
+          | [] => onInst cfg f k (.arrive c sc)
+          | 'p' :: rest => onInst cfg { f with rscript := rest } k (.turnedAway c false)
+          | 'e' :: rest => onInst cfg { f with rscript := rest } k (.turnedAway c true)
+          | _ :: rest => onInst cfg { f with rscript := rest } k (.arrive c sc)
+  | .poll c rej woke =>
+      match lookup f.owner c with
+      | some k => onInst cfg f k (.poll c rej woke)
+      | none => (f, [])
+  | .drop c =>
+      match lookup f.owner c with
+      | some k => onInst cfg f k (.drop c)
+      | none => (f, [])
+
+/-- service 0 is built together with the layer, at tick 0 of the case; the others when first used -/
+def initFleet (cfg : Cfg) : Fleet := { insts := [(0, init cfg)] }
+def frun (cfg : Cfg) (ops : List FOp) : Fleet := ops.foldl (fun f op => (fstep cfg f op).1) (initFleet cfg)
+
+/-- the events of a whole case, as the line-protocol driver prints them (before `wire`) -/
+def ftrace (cfg : Cfg) (ops : List FOp) : List Ev :=
+  (ops.foldl (fun (p : Fleet × List Ev) op => let r := fstep cfg p.1 op; (r.1, p.2 ++ r.2)) (initFleet cfg, [])).2
+
+/-- the service an operation is addressed to -/
+def target (f : Fleet) : FOp → Option Nat
+  | .arrive k _ _ => some k
+  | .poll c _ _ => lookup f.owner c
+  | .drop c => lookup f.owner c
+  | _ => none
 
 /-! ## line protocol -/
 
@@ -290,6 +434,23 @@ def parseOp (ws : List String) : Option Op :=
   | "manual" :: "busy" :: rest => some (.busy ((parseKv rest).nat "ms" 0))
   | _ => none
 
+/-- `arrive c svc=k h=j lclone=1 …`: which handle of the service is used (`h=`) and whether the service is built
+from a clone of the layer (`lclone=1`) make no difference to the model: clones of a service share its limiter,
+clones of a layer share only the configuration. `manual ready script=pe…`: scripted `poll_ready` answers. -/
+def parseFOp (ws : List String) : Option FOp :=
+  match ws with
+  | "arrive" :: c :: rest =>
+      let kv := parseKv rest
+      some (.arrive (kv.nat "svc" 0) (c.toNat?.getD 0) ((planOf kv).headD { lat := 0, out := .ok }))
+  | "manual" :: "ready" :: rest => some (.ready ((parseKv rest).str "script" "").toList)
+  | _ =>
+      match parseOp ws with
+      | some (.poll c rej woke) => some (.poll c rej woke)
+      | some (.drop c) => some (.drop c)
+      | some (.adv ms) => some (.adv ms)
+      | some (.busy ms) => some (.busy ms)
+      | _ => none
+
 /-- The wrapped service of the harness is the strict scripted service: its `inner_call` line also
 carries the request tag (the caller id) and whether the called instance had been polled ready.
 The model's claim: always (`RateLimiter::poll_ready` polls the instance that `call` then uses). -/
@@ -298,16 +459,30 @@ def wire : Ev → Ev
   | .innerCallX c k tag _ => .innerCallX c k tag true
   | e => e
 
+/-- The configuration of the case header. `via=per_second|per_minute|burst|default` builds through the preset
+(`n=`, `rate=`/`burst=`) or the builder's own defaults; `limit= period= timeout= kind=` given with it are builder
+methods called afterwards (in ticks). Without `via` (plain builder, every field set) the defaults are the
+harness's. `tick=us`: one tick is 1 µs (presets are stated in milliseconds). -/
+def cfgOf (kv : Kv) : Cfg :=
+  let u := if kv.str "tick" "ms" = "us" then 1000 else 1
+  let via := kv.str "via" "builder"
+  let base : Cfg :=
+    if via = "per_second" then scale u (perSecond (kv.nat "n" 1))
+    else if via = "per_minute" then scale u (perMinute (kv.nat "n" 1))
+    else if via = "burst" then scale u (burst (kv.nat "rate" 1) (kv.nat "burst" 0))
+    else if via = "default" then scale u builderDefaults
+    else { kind := .fixed, limit := 1, period := 1000, timeout := 0 }
+  { kind := match kv.get "kind" with | some k => parseKind k | none => base.kind,
+    limit := kv.nat "limit" base.limit, period := kv.nat "period" base.period,
+    timeout := kv.nat "timeout" base.timeout }
+
 def machine : Machine where
-  σ := Cfg × State
-  init kv :=
-    let cfg : Cfg := { kind := parseKind (kv.str "kind" "fixed"), limit := kv.nat "limit" 1,
-                       period := kv.nat "period" 1000, timeout := kv.nat "timeout" 0 }
-    (cfg, init cfg)
-  step := fun (cfg, s) ws =>
-    match parseOp ws with
-    | some op => let s' := stepS cfg s op; ((cfg, s'), (s'.log.drop s.log.length).map wire)
-    | none => ((cfg, s), [])
-  now := fun (_, s) => s.now
+  σ := Cfg × Fleet
+  init kv := let cfg := cfgOf kv; (cfg, initFleet cfg)
+  step := fun (cfg, f) ws =>
+    match parseFOp ws with
+    | some op => let r := fstep cfg f op; ((cfg, r.1), r.2.map wire)
+    | none => ((cfg, f), [])
+  now := fun (_, f) => f.now
 
 end TR.RateLimiter
